@@ -80,6 +80,33 @@ def _programs():
             True,
             True,
         )
+    # joins whose key columns have different names on the two sides (each side is shuffled / split by ITS key)
+    for how in ("inner", "left", "right"):
+        add(
+            f"merge_diffkeys_small_left_{how}",
+            lambda t, k, how=how: t.df2[["a", "w"]].rename(columns={"a": "ka"}).merge(t.df[["a", "u"]], left_on="ka", right_on="a", how=how, **_kw(broadcast=k["broadcast"], npartitions=k["npartitions"])),
+            lambda t, how=how: t.df2[["a", "w"]].rename(columns={"a": "ka"}).merge(t.df[["a", "u"]], left_on="ka", right_on="a", how=how),
+            {"broadcast": BROADCAST, "npartitions": NPART},
+            True,
+            True,
+        )
+        add(
+            f"merge_diffkeys_small_right_{how}",
+            lambda t, k, how=how: t.df[["a", "u"]].merge(t.df2[["a", "w"]].rename(columns={"a": "ka"}), left_on="a", right_on="ka", how=how, **_kw(broadcast=k["broadcast"], npartitions=k["npartitions"])),
+            lambda t, how=how: t.df[["a", "u"]].merge(t.df2[["a", "w"]].rename(columns={"a": "ka"}), left_on="a", right_on="ka", how=how),
+            {"broadcast": BROADCAST, "npartitions": NPART},
+            True,
+            True,
+        )
+    # normalised value counts of a column with missing values: the tree reduction and the shuffle reduction divide by a length
+    for dropna in (True, False):
+        add(
+            f"value_counts_normalize_dropna{dropna}",
+            lambda t, k, dropna=dropna: t.df.b.value_counts(normalize=True, dropna=dropna, **_kw(split_every=k["split_every"], split_out=k["split_out"])),
+            lambda t, dropna=dropna: t.df.b.value_counts(normalize=True, dropna=dropna),
+            {"split_every": SPLIT_EVERY, "split_out": SPLIT_OUT},
+            True,
+        )
     add("sort_values", lambda t, k: t.df.sort_values(["a", "u"], **_kw(npartitions=k["npartitions"], upsample=k["upsample"], shuffle_method=k["method"])), lambda t: t.df.sort_values(["a", "u"]), {"npartitions": NPART, "upsample": UPSAMPLE, "method": METHOD})
     add("sort_desc", lambda t, k: t.df.sort_values("u", ascending=False, **_kw(npartitions=k["npartitions"], upsample=k["upsample"])), lambda t: t.df.sort_values("u", ascending=False), {"npartitions": NPART, "upsample": UPSAMPLE})
     add("set_index", lambda t, k: t.df.set_index("u", **_kw(npartitions=k["npartitions"], upsample=k["upsample"], shuffle_method=k["method"])), lambda t: t.df.set_index("u").sort_index(), {"npartitions": NPART, "upsample": UPSAMPLE, "method": METHOD})
